@@ -108,9 +108,9 @@ def gen_cases(ctx):
     # striped mutexes, shard vectors - is then shared by more workers than it was sized for)
     ti = len(triples)
     for c in corpus_cases:
-        if not any(r.is_lat for r in c.ref_prog.rels):
+        if not any(r.is_lat for r in c.ref_prog.rels) and c.name != 'k_noindex_cycle':
             continue
-        for (a, b, c3) in ((1, 8, 16), (1, 16, 8), (2, 16, 16)):
+        for (a, b, c3) in ((1, 8, 16), (1, 16, 8), (2, 16, 16)) + (((1, 4, 8), (2, 8, 3), (1, 2, 16), (2, 5, 16)) if c.name == 'k_noindex_cycle' else ()):
             v = rng.choice([x for x in c.variants if x.par])
             rows = c.mk(c.rng)
             ti += 1
